@@ -162,6 +162,14 @@ def xml_to_tupletree_sax(xml_string, meaning, conn_id=None):
 
     try:
         xml.sax.parseString(xml_string, handler, None)
+    except LookupError as exc:
+        # The XML declaration specifies an encoding Python does not know
+        pe = XMLParseError(
+            _format("XML parsing error encountered in {0}: {1}\n",
+                    meaning, exc),
+            conn_id=conn_id)
+        pe.__cause__ = None
+        raise pe
     except xml.sax.SAXParseException as exc:
 
         # xml.sax.parse() is documented to only raise SAXParseException. In
